@@ -87,3 +87,96 @@ Proof.
   repeat split; vm_compute; reflexivity.
 Qed.
 Print Assumptions C13_nonvacuous.
+
+(* ---- every record once, in order -------------------------------------------------------------
+   Ghost state ([greach h ops] = the state together with the ghost): [g_cr] every log file ever
+   created (name, inode) in creation order; [g_hist] every chunk written (tagged with its file name)
+   in writing order; [g_got g o] the chunks handed to the reader of slot [o] since it was last
+   synchronised ([g_sync g o]: by seek(('start',_)), by a constructor with head= and no head file,
+   or by a restart from a head file saved by a synchronised reader; lost by any other seek,
+   seek_block, close).  [g_mono] records that so far every new file name was positive and above every
+   earlier name.
+
+   PARTIAL: proved under [g_mono g = true].  Without it the clause is false of the (repaired) code:
+   see C13_exactly_once_in_order_refuted (a log file stamped 0; a re-opened writer that names a file
+   at or below the name of a newest file that was deleted externally).  [ops_okg] additionally asks
+   that records of the line modes contain no newline of their own.
+
+   Statement: the written history is, file by file in creation order, the files' chunks; what the
+   reader got is, file by file in the same order, a PREFIX of each file's chunks (so: a subsequence of
+   the history, nothing twice, nothing reordered, only whole chunks); the prefix is the whole file for
+   every file before the reader's position that is still on disk (only unlinked files are skipped,
+   wholly or from some record on) and empty for files after its position. *)
+Theorem C13_exactly_once_in_order_partial :
+  forall (h : hdr) (ops : list op) (o : bool),
+    fixn_of h = true -> fixr_of h = true -> ops_okg h ops ->
+    let s := fst (greach h ops) in let g := snd (greach h ops) in
+    g_mono g = true ->
+    g_hist g = flat_map (fun e => tag (fst e) (chunks (sfs s) (snd e))) (g_cr g) /\
+    (g_sync g o = true -> forall r, get s o = Some r ->
+     exists taken cur,
+       g_got g o = flat_map (fun e => tag (fst e) (firstn (taken (fst e)) (chunks (sfs s) (snd e)))) (g_cr g) /\
+       (forall n i, In (n, i) (g_cr g) ->
+          (taken n <= length (chunks (sfs s) i))%nat /\
+          (n < cur -> taken n = length (chunks (sfs s) i) \/ lookup (dir (sfs s)) n = None) /\
+          (cur < n -> taken n = O))).
+Proof. exact exactly_once. Qed.
+Print Assumptions C13_exactly_once_in_order_partial.
+
+(* ... and [g_got] is what read() returned: each read of a synchronised reader returns nothing, or the
+   decoding of the concatenation of the whole chunks appended to [g_got] (never a torn record) *)
+Theorem C13_reads_return_whole_records :
+  forall (h : hdr) (ops : list op) (o : bool) (block : bool),
+    fixn_of h = true -> fixr_of h = true -> ops_okg h ops ->
+    let s := fst (greach h ops) in let g := snd (greach h ops) in
+    g_mono g = true -> g_sync g o = true -> forall r, get s o = Some r -> rf r <> RClosed ->
+    exists delta,
+      g_got (gstep h s g (ORead o block)) o = g_got g o ++ delta /\
+      snd (step h s (ORead o block)) =
+        match delta with
+        | [] => ROk
+        | _ => decode (mode_ofh h) (eff_block (mode_ofh h) block) (concat (map snd delta))
+        end.
+Proof. exact read_returns. Qed.
+Print Assumptions C13_reads_return_whole_records.
+
+(* the general form is false of the repaired code, and the pinned auto-refresh is wrong as well:
+   (1) a file stamped 0 is never found by a reader that starts on an empty directory;
+   (2) after the newest file was deleted externally, a re-opened writer may use a lower name, which a
+       reader that had seen the deleted file never reaches;
+   (3) pinned read(): when the file being read is pruned while the reader is at its end and two newer
+       files exist, the first of them is skipped ([c_fixr = false]). *)
+Definition drained (h : hdr) (ops : list op) : Prop :=
+  snd (step h (reach h ops) (ORead true false)) = ROk /\ snd (step h (reach h ops) (ORead true true)) = ROk.
+
+Theorem C13_exactly_once_in_order_refuted :
+  (exists ops, ops_okg (2, 10, 1000, (true, true)) ops /\
+     drained (2, 10, 1000, (true, true)) ops /\
+     map (fun e => (fst e, content (sfs (reach (2, 10, 1000, (true, true)) ops)) (snd e))) (dir (sfs (reach (2, 10, 1000, (true, true)) ops)))
+       = [(0, [49; 120; 120; 10])]) /\
+  (exists ops, ops_okg (2, 1, 1000, (true, true)) ops /\
+     drained (2, 1, 1000, (true, true)) ops /\
+     map (fun e => (fst e, content (sfs (reach (2, 1, 1000, (true, true)) ops)) (snd e))) (dir (sfs (reach (2, 1, 1000, (true, true)) ops)))
+       = [(30, [50; 120; 120; 10])]) /\
+  (exists ops, ops_okg (2, 1, 6, (true, false)) ops /\
+     snd (step (2, 1, 6, (true, false)) (reach (2, 1, 6, (true, false)) ops) (ORead true false)) = RRec [51; 120] /\
+     In (30, [50; 120; 10])
+        (map (fun e => (fst e, content (sfs (reach (2, 1, 6, (true, false)) ops)) (snd e))) (dir (sfs (reach (2, 1, 6, (true, false)) ops))))).
+Proof.
+  split; [|split].
+  - exists [OOpen false 1 false false false; OOpen true 1 true true false; OSeek true PStart;
+            OWrite false (Some 0) 1 (PGen 0 1 3); ORead true false].
+    split; [unfold ops_okg; repeat (constructor; [split; [solve_op_ok|cbn; try exact I; right; vm_compute; intuition discriminate]|]); constructor|].
+    split; [split; vm_compute; reflexivity|vm_compute; reflexivity].
+  - exists [OOpen false 1 false false false; OOpen true 1 true true false; OSeek true PStart;
+            OWrite false (Some 50) 2 (PGen 0 1 3); ORead true false; ODelete 50;
+            OOpen false 60 false false false; OWrite false (Some 30) 61 (PGen 0 2 3); ORead true false].
+    split; [unfold ops_okg; repeat (constructor; [split; [solve_op_ok|cbn; try exact I; right; vm_compute; intuition discriminate]|]); constructor|].
+    split; [split; vm_compute; reflexivity|vm_compute; reflexivity].
+  - exists [OOpen false 1 false false false; OWrite false (Some 10) 2 (PGen 0 0 2);
+            OOpen true 20 true true false; OSeek true PStart; ORead true false; ORead true false;
+            OWrite false (Some 20) 3 (PGen 0 1 2); OWrite false (Some 30) 4 (PGen 0 2 2); OWrite false (Some 40) 5 (PGen 0 3 2)].
+    split; [unfold ops_okg; repeat (constructor; [split; [solve_op_ok|cbn; try exact I; right; vm_compute; intuition discriminate]|]); constructor|].
+    split; [vm_compute; reflexivity|vm_compute; auto].
+Qed.
+Print Assumptions C13_exactly_once_in_order_refuted.
